@@ -35,6 +35,9 @@ var props = map[string]propCfg{
 		{Name: "plain", Shards: 16, TimeoutS: 900, TZ: []string{"UTC", "Asia/Shanghai"}},
 		{Name: "race", Race: true, Shards: 16, TimeoutS: 1200, TZ: []string{"UTC"}},
 	}, RaceFiles: codecRace},
+	"C16": {Pkg: "checks/c16", Go: "go1.26", Level: "fault_enumeration", Passes: []pass{
+		{Name: "race", Race: true, Shards: 16, TimeoutS: 900},
+	}, RaceFiles: []string{`^rpc/plugins/cluster/`}},
 	"C14": {Pkg: "checks/c14", Level: "exploration", Passes: []pass{
 		{Name: "race", Race: true, Shards: 48, ShardsThorough: 256, TimeoutS: 900, TZ: []string{"UTC"}},
 		{Name: "plain", Shards: 48, ShardsThorough: 256, TimeoutS: 600, TZ: []string{"UTC"}},
